@@ -178,15 +178,23 @@ def replay(ctx, path):
 
 MANIFEST = {
     "level_text": ("Lean 4 proof over an exact model of Server.CreateCertificate, the node-authorizer impersonation gate, security.Authenticate, "
-                   "IstioCA (NewIstioCA/minTTL/sign) and genCertTemplateFromCSR/BuildSubjectAltNameExtension (incl. netip.ParseAddr): "
-                   "no_cert_without_authn, san_exact (SAN entries == authenticated identities or the one gated impersonated identity, for all identity "
-                   "strings), csr_cannot_inject and metadata_cannot_inject (non-interference), impersonation_gate (conditions exactly as coded), never_ca, "
-                   "binds_csr_key, ttl_bounds, errors_not_crashes; authenticator post-processing theorems incl. oidc_sub_total. The model is tied to /repo on "
-                   "every run by a differential over the real CA and server on parsed leaf certificates."),
+                   "IstioCA (NewIstioCA/minTTL/sign) and genCertTemplateFromCSR/BuildSubjectAltNameExtension (incl. netip.ParseAddr), joined with models "
+                   "of the four real authenticators (createCertificateFull): no_cert_without_authn, san_exact / san_exact_full and the end-to-end "
+                   "san_exact_kube/oidc/xfcc/cert (SAN entries == identities derived from the validated credential, or the one gated impersonated identity, "
+                   "for all identity strings), csr_cannot_inject and metadata_cannot_inject (non-interference; subject = CN-only|empty), impersonation_gate "
+                   "(conditions exactly as coded, on the informer's non-Failed pods), never_ca, binds_csr_key, ttl_bounds (NotAfter-now <= max, "
+                   "NotAfter-NotBefore <= max+120 s, <= signer expiry), crash_iff / errors_not_crashes_real (CreateCertificate panics exactly when a reached "
+                   "authenticator panics; none of the real ones does for TCP peers), kube_review_binds_token_and_audience, oidc_sub_total. Tied to /repo on "
+                   "every run by a differential over the real CA, server and authenticators on parsed leaf certificates. One recorded unrepaired finding: "
+                   "the gate does not constrain the trust domain of an impersonated identity (KNOWN-FINDING issue:impersonation-foreign-trust-domain)."),
     "level_note": ("Trusted: Lean kernel + {propext, Classical.choice, Quot.sound}; the hand-written model (tied by differential testing: 1500 cases / "
-                   "~4300 real CreateCertificate calls + 3000 authenticator cases quick; 30000 + 60000 thorough); crypto/x509 + ASN.1 as an opaque encoding with "
-                   "decode(encode d)=d; a nominal clock; verif-tagged accessor files zz_verif_c09.go. Not modelled: signature validity, serial numbers, token "
-                   "cryptography / TokenReview / JWKS, gRPC transport, root-cert rotation, Failed pods. Lifetime<=max needs default<=max configured."),
-    "technique": "Lean 4 theorems over an exact model of the issuance data flow + differential correspondence with the real CA/server on parsed certificates",
+                   "~4300 real CreateCertificate calls of which ~900 with a real authenticator inside the server + 3000 authenticator cases quick; 30000 + 60000 "
+                   "thorough); crypto/x509 + ASN.1 as an opaque encoding with decode(encode d)=d (the leaf's signature under the CA's signing certificate is "
+                   "checked by the harness, not proved); a nominal clock; the verif-tagged accessor file security/pkg/server/ca/zz_verif_c09.go; the fake "
+                   "API server's emulation of the status.phase field selector. Not modelled: serial numbers, token cryptography / TokenReview / JWKS (inputs), "
+                   "the third-party XFCC grammar (its parse is an input), OIDC discovery (only jwks_uri), non-UTF-8 identities in CreateCertificate, gRPC "
+                   "transport, root-cert rotation, the RA path. errors_not_crashes assumes no reached authenticator panics; XFCC panics for a peer address "
+                   "whose host is not an IP literal (not a TCP peer)."),
+    "technique": "Lean 4 theorems over an exact model of the issuance data flow + differential correspondence with the real CA/server/authenticators on parsed certificates",
     "design_ref": "DESIGN.md section 5 C09",
 }
